@@ -10,7 +10,11 @@ ENGINE_B = [{'template': 't_impl', 'kinds': ['addrcall_'], 'max_quick': 14, 'max
                       [8, 1, 0x101000000, 0, 1, 3, 0, 2, 3, 2, 3, 0], [8, 1, 0x7FFFFFFFFFFFFFF0, 0, 1, 0, 0, 0, 0, 0, 0, 1]]},
             # impl block next to inherited / virtual functions: every declared wrapper is there and calls its own address
             {'template': 't_implname', 'kinds': ['addrcall_'], 'max_quick': 4, 'max_thorough': 16,
-             'fixed': [[8, 0x140001000, 0x140002000, 2, 0, 3, 4, 1, 2], [8, 4096, 8192, 2, 0, 0, 3, 1, 0]]}]
+             'fixed': [[8, 0x140001000, 0x140002000, 2, 0, 3, 4, 1, 2], [8, 4096, 8192, 2, 0, 0, 3, 1, 0]]},
+            # longer parameter lists: 4..6 parameters of mixed width in the emitted wrapper
+            {'template': 't_impl6', 'kinds': ['addrcall_'], 'max_quick': 6, 'max_thorough': 32, 'abi': True,
+             'fixed': [[8, 0x140003000, 1, 6, 0, 1, 2, 3, 1, 0, 2], [8, 0x7FF712345678, 0, 6, 1, 0, 3, 2, 0, 1, 1], [8, 4096, 2, 5, 3, 3, 0, 1, 2, 0, 0],
+                       [8, 8192, 1, 4, 1, 1, 0, 0, 0, 0, 4]]}]
 CC = ['C', 'cdecl', 'stdcall', 'fastcall', 'thiscall', 'vectorcall', 'system', 'bogus']
 ARGT = {0: ['raw', 'u32'], 1: ['raw', 'u64'], 2: ['const*', ['raw', 'm::T']], 3: ['mut*', ['raw', 'u8']], 5: ['raw', 'bool']}
 ARGS_TXT = {0: 'u32', 1: 'u64', 2: '*const T', 3: '*mut u8', 4: 'Nope', 5: 'bool', 6: '*const Nope'}
@@ -30,7 +34,7 @@ ASSUMPTIONS = ['the emitted wrapper text (backends/rust.rs build_function: trans
 
 
 def bounds(tier):
-    return {'parameters': '0..3', 'address': 'full isize range (symbolic)', 'pointer_size': [4, 8],
+    return {'parameters': '0..3 with every type / attribute mix; 4..6 with u32 / u64 (thorough: and *mut u8) in every position, a pointer or an unresolvable type in the last', 'address': 'full isize range (symbolic)', 'pointer_size': [4, 8],
             'outside': 'more than 3 parameters; wrapper text and execution'}
 
 
@@ -55,8 +59,47 @@ def slices(tier, rng):
             if tier == 'quick' and ps == 8 and sub == 'args': continue
             out.append(Slice('%s-ps%d' % (sub, ps), 't_impl', 12, lambda a, ps=ps, sub=sub: assume(a, ps, sub),
                              opts={'must_reach': ['ok', 'err']}))
+        out.append(Slice('six-ps%d' % ps, 't_impl6', 11, lambda a, ps=ps, tier=tier: six_assume(a, ps, tier), opts={'must_reach': ['ok', 'err']}))
         out.append(Slice('names-ps%d' % ps, 't_implname', 9, lambda a, ps=ps: names_assume(a, ps), opts={'must_reach': ['ok', 'err']}))
     return out
+
+
+# ---- t_impl6: 4..6 parameters
+def six_assume(a, ps, tier):
+    # quick: u32 / u64 in every position, plus a pointer or an unresolvable type in the last one; thorough: u32 / u64 / *mut u8 everywhere
+    kinds = (0, 1) if tier == 'quick' else (0, 1, 3)
+    last = (0, 1, 3, 4)
+    A = [a[0] == ps, a[1] >= 0, z3.ULE(a[2], 2), z3.UGE(a[3], 4), z3.ULE(a[3], 6), z3.ULE(a[10], 2 if tier == 'quick' else 4)]
+    for j in range(6):
+        A.append(z3.Or(*[a[4 + j] == k for k in (last if j == 5 else kinds)]))
+        A.append(z3.Implies(z3.ULE(a[3], j), a[4 + j] == 0))
+    return A
+
+
+def six_queries(a, leaf, py):
+    unres = z3.Or(*[z3.And(z3.UGT(a[3], j), a[4 + j] == 4) for j in range(6)])
+    acc = z3.Not(unres)
+    if not is_ok(py): return [Query('rejected-implies-unresolvable-parameter', acc)]
+    it = Item(items(py)['m::T'])
+    bad = [unres]
+    fns = [x for x in it.functions if x.name == 'g0']
+    if len(fns) != 1 or len(it.functions) != 1 or fns[0].body[0] != 'address': return [Query('accepted-wrapper-has-declared-address-and-signature', z3.BoolVal(True))]
+    fn = fns[0]
+    bad.append(bv(fn.body[1]) != a[1])
+    args = list(fn.args)
+    recv = args[0] if args and isinstance(args[0], str) else None
+    rest = args[1:] if recv else args
+    for k, r in {0: None, 1: '&self', 2: '&mut self'}.items():
+        if recv != r: bad.append(a[2] == k)
+    bad.append(a[3] != len(rest))
+    for j, arg in enumerate(rest):
+        if arg[0] != 'a%d' % j: bad.append(z3.BoolVal(True))
+        for k, ty in ARGT.items():
+            if arg[1] != ty: bad.append(a[4 + j] == k)
+    bad.append(z3.And(a[10] == 0, z3.BoolVal(fn.ret is not None)))
+    for k, ty in ARGT.items():
+        if fn.ret != ty: bad.append(a[10] == k + 1)
+    return [Query('accepted-wrapper-has-declared-address-and-signature', z3.Or(*bad))]
 
 
 # ---- t_implname: declared functions next to names that are already taken
@@ -124,6 +167,7 @@ def expected_cc(f):
 def leaf_queries(I, a, leaf, py, sl):
     if leaf.kind != 'ret': return [Query('no-%s' % leaf.kind, z3.BoolVal(True))]
     if sl.template == 't_implname': return names_queries(a, leaf, py)
+    if sl.template == 't_impl6': return six_queries(a, leaf, py)
     acc = acceptable(a)
     if not is_ok(py): return [Query('rejected-implies-unacceptable', acc)]
     f = a[4:12]
@@ -162,12 +206,18 @@ def leaf_queries(I, a, leaf, py, sl):
 
 def region_env(a, sl):
     if sl.template == 't_implname': return {'acceptable': names_acceptable(a)}
+    if sl.template == 't_impl6': return {}
     f = a[4:12]
     return {'f': f, 'ret_unresolvable': z3.Or(f[5] == 5, f[5] == 7), 'acceptable': acceptable(a)}
 
 
 def describe(template, args):
     a = [int(x) for x in args]
+    if template == 't_impl6':
+        R = {0: '', 1: '&self', 2: '&mut self'}
+        ps_ = [R.get(a[2], '')] + ['a%d: %s' % (j, ARGS_TXT.get(a[4 + j], '?')) for j in range(min(a[3], 6))]
+        return '// pointer size %d\n#[align(4)]\npub type T { pub a: u32 }\nimpl T {\n    #[address(%d)] pub fn g0(%s)%s;\n}' % (
+            a[0], a[1], ', '.join(x for x in ps_ if x), '' if a[10] == 0 else ' -> ' + ARGS_TXT.get(a[10] - 1, '?'))
     if template == 't_implname':
         R = {0: '', 1: '&self', 2: '&mut self'}
         vn = {1: 'g0', 2: 'g1', 3: 'h'}; bn = {1: 'pub fn g0', 2: 'pub fn g1', 3: 'fn g0', 4: 'pub fn h'}
